@@ -17,8 +17,10 @@ CONSTANTS
   ModernUnsub = FALSE
   Stepwise = TRUE
   Gates = TRUE
+  GateNames = {"put"}
   ClientFirst = FALSE
   MinSteps = 1
   MaxSteps = 9
+  Bias = FALSE
 INVARIANTS LeadFresh
 CHECK_DEADLOCK FALSE
